@@ -351,7 +351,7 @@ namespace raptor
                         int active_rank;
                         RAPtor_MPI_Comm_rank(coarse_comm, &active_rank);
 
-                        char trans = 'N'; //No transpose
+                        char trans = 'T'; // A_coarse is stored row-major: LAPACK factored its transpose
                         int nhrs = 1; // Number of right hand sides
                         int info; // result
 
